@@ -195,6 +195,12 @@ def conv3d_no_bias(name, c, detail):
     return name == "conv3d" and not c["bias"]
 
 
+def sum_dtype_cast_after_reduce(name, c, detail):
+    """aten_sum / aten_sum_dim_IntList / aten_mean_dim apply dtype= to the RESULT; PyTorch casts the input before reducing
+    (sum([.5,.5,1.5], dtype=int64) is 1 in PyTorch, 2 in the graph)."""
+    return name in ("sum", "sum_dim", "mean_dim") and c.get("cast") is not None and 0 not in c["shape"] and detail.startswith("values")
+
+
 def split_zero_dim(name, c, detail):
     return name == "split" and _size(c, c["dim"]) == 0
 
@@ -218,8 +224,6 @@ def int_dtype_promotion(name, c, detail):
 
 
 PREDICATES = {
-    "C08-repeat-interleave-tensor-dim": repeat_interleave_tensor_dim,
-    "C08-isclose-infinities": isclose_infinities,
     "C08-avg-pool-divisor-override-ignored": avg_pool_divisor_override,
     "C08-cross-entropy-label-smoothing-ignored": cross_entropy_label_smoothing,
     "C08-unfold-rank0-size0": unfold_rank0_size0,
